@@ -134,6 +134,8 @@ def load_seeded() -> List[dict]:
         if os.path.exists(meta) and os.path.exists(patch):
             with open(meta) as fh:
                 m = json.load(fh)
+            if m.get('pending'):
+                continue        # imported but not triaged yet: not part of the self-validation
             m['dir'] = os.path.join(root, d)
             m['patch'] = patch
             m.setdefault('id', d)
